@@ -62,7 +62,13 @@ impl SourcePath {
                 let Some(name) = ancestor.file_name() else {
                     return Ok(absolute);
                 };
-                suffix = PathBuf::from(name).join(suffix);
+                // Joining an empty suffix would leave a trailing separator, which names a
+                // directory: once the file appears, reading `file/` fails with ENOTDIR.
+                suffix = if suffix.as_os_str().is_empty() {
+                    PathBuf::from(name)
+                } else {
+                    PathBuf::from(name).join(suffix)
+                };
                 let Some(parent) = ancestor.parent() else {
                     return Ok(absolute);
                 };
